@@ -728,12 +728,23 @@ def extract_protocol(src, facts, notes):
         except ParseError as ex:
             notes.append('protocol: cannot parse Arc::clone: %s' % ex)
     # MAX_REFCOUNT constant
-    P['max_refcount'] = None
+    P['max_refcount'] = None; P['max_refcount_val'] = None
     for f, items in src.items.items():
-        if f != 'arc.rs': continue
         for it in walk_items(items):
-            if it.kind == 'const' and it.name == 'MAX_REFCOUNT':
-                P['max_refcount'] = ' '.join(it.text.split()) if hasattr(it, 'text') else None
+            if f == 'arc.rs' and it.kind == 'const' and it.name == 'MAX_REFCOUNT':
+                txt = it.header_text().split('=', 1)[1].replace(' ', '') if '=' in it.header_text() else ''
+                P['max_refcount'] = txt
+                P['max_refcount_val'] = {'(isize::MAX)asusize': 2 ** 63 - 1, 'isize::MAXasusize': 2 ** 63 - 1,
+                                         'usize::MAX': 2 ** 64 - 1, '(usize::MAX)': 2 ** 64 - 1}.get(txt)
+            if f == 'lib.rs' and it.kind == 'use' and it.header_text().replace(' ', '') == 'usestd::process::abort' \
+               and [c.replace(' ', '') for c in it.cfgs()] == ['#[cfg(feature="std")]']:
+                P['abort_std'] = 'AbortProcess'
+            if f == 'lib.rs' and it.kind == 'fn' and it.name == 'abort' and [c.replace(' ', '') for c in it.cfgs()] == ['#[cfg(not(feature="std"))]']:
+                body = toks_text(it.body).replace(' ', '')
+                # a local guard whose Drop panics is alive while the function panics: panic-in-panic = abort
+                import re as _re
+                m = _re.match(r'^struct(\w+);implDropfor\1\{fndrop\(&mutself\)\{panic!\(\)\}\}let(\w+)=\1;panic!\(\);$', body)
+                P['abort_nostd'] = 'AbortDoublePanic' if (m and m.group(2) != '_') else 'AbortUnknown'
     # is_unique: `Self::count(self) == 1` with count's (possibly delegated) load ordering
     g = A.get('gate', {}).get('form')
     if g == 'GateCountEq1':
@@ -755,6 +766,12 @@ def emit_protocol(P):
         b(P['drop_shape'] and is_rel(P['dec_ord'])), b(P['drop_shape'] and is_acq(P['acq_ord'])), b(P['uniq_shape'] and is_acq(P['uniq_ord']))))
     out.append('Definition sites_closed : bool := %s.' % b(P['closed']))
     out.append('Definition drop_inner_shape_ok : bool := %s.' % b(P['drop_shape']))
+    out.append('(* --- the overflow guard of Arc::clone and the two definitions of abort --- *)')
+    out.append('Definition clone_guard : guard_kind := %s.' % (P['guard'].get('form') if P.get('clone_shape') or P['guard'].get('form') != 'GuardUnknown' else 'GuardUnknown'))
+    out.append('Definition clone_guard_action : guard_action := %s.' % ('ActAbort' if P['guard'].get('action') == 'abort' else 'ActOther'))
+    out.append('Definition max_refcount_val : option N := %s.' % (('(Some %d)' % P['max_refcount_val']) if P.get('max_refcount_val') is not None else 'None'))
+    out.append('Definition abort_std : abort_kind := %s.' % (P.get('abort_std') or 'AbortUnknown'))
+    out.append('Definition abort_nostd : abort_kind := %s.' % (P.get('abort_nostd') or 'AbortUnknown'))
     return out
 
 
@@ -859,7 +876,7 @@ def emit_pointers(PT):
 HEADER = '''(* GENERATED by tools/extract.py from %s -- do not edit.
    source digest: %s *)
 From Coq Require Import NArith List String.
-From TV Require Import Layout SrcFacts Bits Conc.
+From TV Require Import Layout SrcFacts Bits Conc Guard.
 Import ListNotations.
 Open Scope N_scope.
 '''
